@@ -1,4 +1,4 @@
-(* U_Json.v — correspondence units for the typed-JSON model (ids 1500-1599).
+(* U_Json.v — correspondence units for the typed-JSON model (ids 1501-1599).
    Wire encoding of a Python value (pv):
      [0] None | [1;b] bool | [2;z] int | [3;bits] float (binary64 bit pattern) | [4;[cp..]] str (code points)
      [5;[b..]] bytes | [6;[..]] list | [7;[..]] tuple | [8;[..]] set (iteration order) | [9;[[k;v]..]] dict
@@ -114,6 +114,11 @@ Definition u_json_loads_dumps (v : V) : V :=
                 do j' <- json_rt j;
                 obj_fromJson ct ascii_upper n (as_int (vnth v 2)) j').
 
+(* UNIT 1507 json_plain : [value] -> [plainb false; plainb true; strictb]   (the predicates of theorems 3-5) *)
+Definition u_json_plain (v : V) : V :=
+  let x := pv_of_V (vnth v 0) in
+  VL [vbool (plainb false x); vbool (plainb true x); vbool (strictb x)].
+
 Definition dispatch_json (u : Z) (v : V) : option V :=
   match u with
   | 1501 => Some (u_json_tojson v)
@@ -122,5 +127,6 @@ Definition dispatch_json (u : Z) (v : V) : option V :=
   | 1504 => Some (u_json_domain v)
   | 1505 => Some (u_json_intstr v)
   | 1506 => Some (u_json_loads_dumps v)
+  | 1507 => Some (u_json_plain v)
   | _ => None
   end.
